@@ -292,4 +292,9 @@ pub fn run(args: &Args, out: &mut Out) {
         one_case(&mut cr, &w, &wsx, &specs, out, "rand");
         out.cases += 1;
     }
+    if let Ok(mut l) = crate::gen::CLOSURE_MISMATCH.lock() {
+        for m in l.drain(..) {
+            out.propfail("`in` on a store built by an add_entities history: ancestor set differs from parent reachability", "gen_world", &m);
+        }
+    }
 }
